@@ -786,6 +786,25 @@ mut("c07-eofmask-reverted", "C07", "seqio/scanner.go", "func (s Scanner) Err() e
 mut("c07-eofmask-errors-is-in-scan", "C07", "seqio/scanner.go", "\ts.res, s.err = s.p.Parse(s.s)\n\treturn s.err == nil\n", "\ts.res, s.err = s.p.Parse(s.s)\n\tif errors.Is(s.err, io.EOF) {\n\t\ts.err, s.end = nil, true\n\t\treturn false\n\t}\n\treturn s.err == nil\n", ["EOF-MASK|seqio.Scanner.Scan"], old2="import (\n", new2="import (\n\t\"errors\"\n")
 mut("c07-eofmask-silent-exhausted-inline", "C07", "seqio/scanner.go", "\tif s.exhausted() {\n\t\ts.end = true\n\t\treturn false\n\t}\n", "\tif done := s.exhausted(); done {\n\t\ts.end = done\n\t\treturn false\n\t}\n", silent=True)
 
+# ---------------------------------------------------------------- refactoring round 3
+mut("c02-normalise-silent-tagless-switch", "C02", "location.go",
+    "func (ranged Ranged) Shift(i, n int) Location {\n\tif n == 0 {\n\t\treturn ranged\n\t}\n\tif n < 0 {\n\t\treturn ranged.Expand(i, n)\n\t}\n",
+    "func (ranged Ranged) Shift(i, n int) Location {\n\tswitch {\n\tcase n == 0:\n\t\treturn ranged\n\tcase n < 0:\n\t\treturn ranged.Expand(i, n)\n\t}\n", silent=True, note="a tagless switch is the if / else-if chain it abbreviates")
+mut("c02-tagless-switch-identity-widened", "C02", "location.go",
+    "func (ranged Ranged) Shift(i, n int) Location {\n\tif n == 0 {\n\t\treturn ranged\n\t}\n\tif n < 0 {\n\t\treturn ranged.Expand(i, n)\n\t}\n",
+    "func (ranged Ranged) Shift(i, n int) Location {\n\tswitch {\n\tcase n == 0, i > ranged.End:\n\t\treturn ranged\n\tcase n < 0:\n\t\treturn ranged.Expand(i, n)\n\t}\n", ["IDENTITY-RETURN|gts.Ranged.Shift"], note="the identity shortcut taken under a second condition")
+mut("c17-fastawrite-silent-builder", "C17", "seqio/fasta.go", "\ts := fmt.Sprintf(\">%s\\n%s\\n\", desc, data)\n\tn, err := io.WriteString(w, s)\n", "\tb := strings.Builder{}\n\tb.WriteByte('>')\n\tb.WriteString(desc)\n\tb.WriteByte('\\n')\n\tb.WriteString(data)\n\tb.WriteByte('\\n')\n\t_ = fmt.Sprintf\n\tn, err := io.WriteString(w, b.String())\n", silent=True)
+mut("c17-fastawrite-builder-no-final-newline", "C17", "seqio/fasta.go", "\ts := fmt.Sprintf(\">%s\\n%s\\n\", desc, data)\n\tn, err := io.WriteString(w, s)\n", "\tb := strings.Builder{}\n\tb.WriteByte('>')\n\tb.WriteString(desc)\n\tb.WriteByte('\\n')\n\tb.WriteString(data)\n\t_ = fmt.Sprintf\n\tn, err := io.WriteString(w, b.String())\n", ["FASTA-WRITE|seqio.Fasta.WriteTo|format"])
+mut("c13-int1-silent-written-out-equality", "C13", "cmd/cache/header.go", "\tif !bytes.Equal(rsum, h.RootSum) {", "\tif !sameSum(rsum, h.RootSum) {", silent=True,
+    old2="// Validate ", new2="func sameSum(a, b []byte) bool {\n\tif len(a) != len(b) {\n\t\treturn false\n\t}\n\tfor i := range a {\n\t\tif a[i] != b[i] {\n\t\t\treturn false\n\t\t}\n\t}\n\treturn true\n}\n\n// Validate ")
+mut("c13-int1-written-out-prefix-only", "C13", "cmd/cache/header.go", "\tif !bytes.Equal(rsum, h.RootSum) {", "\tif !sameSum(rsum, h.RootSum) {", ["INT-1|cache.Header.Validate|field=RootSum"],
+    old2="// Validate ", new2="func sameSum(a, b []byte) bool {\n\tfor i := range a {\n\t\tif i < len(b) && a[i] != b[i] {\n\t\t\treturn false\n\t\t}\n\t}\n\treturn true\n}\n\n// Validate ", note="a comparison that ignores a length difference is not equality")
+mut("c15-backfront-silent-helper", "C15", "cmd/gts/insert.go", "\t\trr := locate(host)\n\t\tindices := make([]int, len(rr))\n\t\tfor i, r := range rr {\n\t\t\tindices[i] = r.Head()\n\t\t}\n\t\tsort.Sort(sort.Reverse(sort.IntSlice(indices)))\n", "\t\tindices := descendingHeads(locate(host))\n", silent=True,
+    old2="func insertFunc(", new2="func descendingHeads(rr gts.Regions) []int {\n\tindices := make([]int, len(rr))\n\tfor i, r := range rr {\n\t\tindices[i] = r.Head()\n\t}\n\tsort.Sort(sort.Reverse(sort.IntSlice(indices)))\n\treturn indices\n}\n\nfunc insertFunc(")
+mut("c15-backfront-helper-ascending", "C15", "cmd/gts/insert.go", "\t\trr := locate(host)\n\t\tindices := make([]int, len(rr))\n\t\tfor i, r := range rr {\n\t\t\tindices[i] = r.Head()\n\t\t}\n\t\tsort.Sort(sort.Reverse(sort.IntSlice(indices)))\n", "\t\tindices := sortedHeads(locate(host))\n", ["BACK-TO-FRONT|main.insertFunc|edit-loop#1"],
+    old2="func insertFunc(", new2="func sortedHeads(rr gts.Regions) []int {\n\tindices := make([]int, len(rr))\n\tfor i, r := range rr {\n\t\tindices[i] = r.Head()\n\t}\n\tsort.Ints(indices)\n\treturn indices\n}\n\nfunc insertFunc(", note="the rule sees through the helper: the list comes back ascending")
+mut("c01-prefixall-silent-itoa", "C01", "seqio/genbank.go", "b.WriteString(fmt.Sprintf(\"REFERENCE   %d\", ref.Number))", "b.WriteString(\"REFERENCE   \" + strconv.Itoa(ref.Number))", silent=True)
+
 if __name__ == "__main__":
     here = os.path.dirname(os.path.abspath(__file__))
     ids = [m["id"] for m in M]
